@@ -312,7 +312,7 @@ class PrangeCtx:
         self.tid = None
 
     def pred(self, e, st, nm, fp, t, idx_terms):
-        ivars, p = fp
+        ivars, p = fp[0], fp[1]
         names = [x.strip() for x in ivars.split(',')]
         if len(names) != len(idx_terms):
             raise ContractError(f'footprint of {nm}: {len(names)} index variables for {len(idx_terms)} axes')
@@ -328,7 +328,9 @@ class PrangeCtx:
         t1 = fresh('t1', z3.IntSort())
         t2 = fresh('t2', z3.IntSort())
         for base, (nm, a, fp) in self.bases.items():
-            if fp is None:
+            if fp is None or (len(fp) > 2 and fp[2] == 'reduction'):
+                # per-thread accumulator planes: iterations run by the same thread are sequential; distinct threads
+                # have distinct ids (assumed contract of numba.get_thread_id), so only the plane test is checked
                 continue
             nidx = len(a.raxes)
             qs = [fresh('c', z3.IntSort()) for _ in range(nidx)]
